@@ -6,6 +6,7 @@ import (
 	"time"
 
 	"github.com/karagenc/socket.io-go/internal/sync"
+	"github.com/karagenc/socket.io-go/internal/verifhook"
 )
 
 type eventHandler struct {
@@ -107,6 +108,7 @@ func newAckHandlerWithTimeout(f any, timeout time.Duration, timeoutFunc func()) 
 	}
 	go func() {
 		time.Sleep(timeout)
+		verifhook.Yield("ack-timer-after-sleep")
 		h.mu.Lock()
 		if h.called {
 			h.mu.Unlock()
